@@ -82,25 +82,54 @@ def run(m: Model, r: Report, tier: str) -> None:
             fr_roles = {e.id: role for e, role in zip(n.targets[0].elts, ("HDR", "REQ_HDR", "DATA")) if isinstance(e, ast.Name)}
     if len(fr_roles) != 3:
         raise AnalysisError(f"{rw.qualname}: `hdr, req_hdr, data = await self._read_frame()` not found")
-    mt = [n for n in walk_no_nested(rw.node) if isinstance(n, ast.Match) and m.mtext(rw, n.subject, fr_roles) == "HDR.CWord"]
-    if len(mt) != 1:
-        raise AnalysisError(f"{rw.qualname}: match on hdr.CWord not found")
+    # the dispatch on the control word: a match statement or an if / elif chain on hdr.CWord (sa/dispatch.py gives both one shape)
+    from sa import dispatch as _dp
+    hdr_name = next(k_ for k_, v_ in fr_roles.items() if v_ == "HDR")
+    cw_arms = _dp.arms(rw.node, f"{hdr_name}.CWord")
+    if cw_arms is None:
+        # the control word may be held in a local first (`cword = hdr.CWord`): look at the function with such aliases resolved
+        from sa.util import subst_locals as _sl7
+        import copy as _cp7
+
+        class _RW:  # the reader function with its aliases substituted, same interface as far as the rules below go
+            pass
+        rw_alias = _cp7.copy(rw)
+        rw_alias.node = _sl7(rw.node, rw.node, set(fr_roles))
+        cw_arms = _dp.arms(rw_alias.node, f"{hdr_name}.CWord")
+        if cw_arms is not None:
+            rw = rw_alias
+    if cw_arms is None:
+        raise AnalysisError(f"{rw.qualname}: dispatch on hdr.CWord not found")
+    disp_node = cw_arms[0].node if not isinstance(cw_arms[0].node, ast.match_case) else next(n for n in ast.walk(rw.node) if isinstance(n, ast.Match) and cw_arms[0].node in n.cases)
     # the control word is looked at before any frame is discarded for missing parts: error words and alive checks are
     # legal as short frames (no address header / payload)
     loop_ = next(n for n in walk_no_nested(rw.node) if isinstance(n, ast.While))
     pre = []
     for st in loop_.body:
-        if st is mt[0]:
+        if st is disp_node:
             break
         if isinstance(st, ast.If) and any(isinstance(x, (ast.Continue, ast.Break)) for x in ast.walk(st)) and \
                 any(role in m.mtext(rw, st.test, fr_roles) for role in ("REQ_HDR", "DATA")):
             pre.append(m.mtext(rw, st.test, fr_roles))
-    r.check(mt[0] in loop_.body and not pre, "R4", f"{rw.qualname}#dispatch-before-filter",
+    r.check(disp_node in loop_.body and not pre, "R4", f"{rw.qualname}#dispatch-before-filter",
             f"frames are skipped on {pre} before the control word is dispatched: an alive check or an error/status word sent as a short frame "
             "(no address header / payload) is swallowed instead of being answered / surfacing as a connection error", loc=rw.loc)
-    arms = {ast.unparse(c.pattern): c for c in mt[0].cases}
+
+    class _A:  # arm view with the attributes the rules below read
+        def __init__(self, a_):
+            self.body = a_.body
+    arms = {}
+    for a_ in cw_arms:
+        arms[" | ".join(a_.patterns) if a_.patterns else "_"] = _A(a_)
+        for p_ in a_.patterns:
+            arms.setdefault(p_, _A(a_))
     alive = arms.get("HSFZStatus.AliveCheck")
-    r.check(alive is not None and any("await self.send_alive_msg()" in ast.unparse(s) for s in alive.body) and isinstance(alive.body[-1], ast.Continue),
+    from sa.cfg import CFG as _CFGa
+    ga_ = _CFGa(rw.node)
+    ans_ = [n.id for n in ga_.nodes.values() if n.kind == "stmt" and n.ast is not None and alive is not None and any(n.ast is s_ for s_ in alive.body) and "await self.send_alive_msg()" in ast.unparse(n.ast)]
+    puts_a = {n.id for n in ga_.nodes.values() if n.kind == "stmt" and n.ast is not None and ("_read_queue.put(" in ast.unparse(n.ast) or "put_nowait(" in ast.unparse(n.ast))}
+    heads_a = {n.id for n in ga_.nodes.values() if n.kind == "loop"}
+    r.check(alive is not None and len(ans_) == 1 and (not puts_a or ga_.must_pass(ans_[0], heads_a, puts_a)[0]),
             "R4", f"{rw.qualname}#alive-arm", "alive checks must be answered in the reader task and not queued", loc=rw.loc)
     sa = m.require_function(f"{HSFZ}.HSFZConnection.send_alive_msg")
     txt = ast.unparse(sa.node)
@@ -109,7 +138,7 @@ def run(m: Model, r: Report, tier: str) -> None:
     r.check("self.writer.write(" in txt and not lm.acquisitions(sa), "R4", f"{sa.qualname}#direct-write", "the reply must be written directly (no lock)", loc=sa.loc)
 
     # ---------------------------------------------------------------- R5
-    data_arm = arms.get("HSFZStatus.Ack | HSFZStatus.Data")
+    data_arm = arms.get("HSFZStatus.Ack") if arms.get("HSFZStatus.Ack") is arms.get("HSFZStatus.Data") or (arms.get("HSFZStatus.Ack") is not None and arms.get("HSFZStatus.Data") is not None and arms["HSFZStatus.Ack"].body is arms["HSFZStatus.Data"].body) else None
     default = arms.get("_")
     r.check(data_arm is not None and any("self._read_queue.put((HDR, REQ_HDR, DATA))" in m.mtext(rw, s, fr_roles) for s in data_arm.body), "R5",
             f"{rw.qualname}#data-arm", "ack and data frames must be queued as (hdr, req_hdr, data)", loc=rw.loc)
